@@ -1115,8 +1115,15 @@ func (st *c05State) broken(why string) {
 }
 
 func (st *c05State) replayMap(s *c05Scenario, mode string, k int, errno string) map[string]any {
+	files := map[string]any{}
+	for p, f := range s.Old {
+		if strings.HasPrefix(p, "cat/pkg/") {
+			files[p] = map[string]any{"data": hx(f.Data), "mode": f.Mode}
+		}
+	}
+	// the tree = base fixture (harness/tree.go NewBaseTree) with cat/pkg/ replaced by `files`
 	return map[string]any{"scenario": s.Name, "variant": s.Variant, "scenario_seed": fmt.Sprint(s.Seed), "mode": mode, "k": k, "errno": errno,
-		"argv": strings.Join(s.Args, " ")}
+		"argv": strings.Join(s.Args, " "), "files": files}
 }
 
 // unperturbed runs, trace = model, crash sweep of the observed trace.
@@ -1846,6 +1853,26 @@ func replayC05(ctx *Ctx, rep map[string]any) *Result {
 		return res
 	}
 	s := c05Build(name, variant, ctx.Seed, filepath.Join(ctx.Work, "c05", "base-replay", "pkgsrc"))
+	if files, ok := rep["files"].(map[string]any); ok && len(files) > 0 {
+		// the exact files of the replay win over the regenerated ones
+		os.RemoveAll(filepath.Join(s.Base, "cat/pkg"))
+		for p, v := range files {
+			m, _ := v.(map[string]any)
+			data, _ := m["data"].(string)
+			mode, _ := m["mode"].(float64)
+			t := &Tree{Root: s.Base}
+			t.Write(p, unhx(data))
+			os.Chmod(t.Path(p), fs.FileMode(int(mode)))
+			if s.Twin != "" && !strings.HasSuffix(p, ".pkglint.tmp") {
+				(&Tree{Root: s.Twin}).Write(p, unhx(data))
+			}
+		}
+		if av, ok := rep["argv"].(string); ok && av != "" {
+			s.Args = strings.Fields(av)
+		}
+		s.Old = c05ReadTree(s.Base)
+		s.OldSnap = Snapshot(s.Base)
+	}
 	base, prog, ok := st.baseline(s)
 	if !ok || res.Broken != "" || base == nil {
 		return res
